@@ -659,6 +659,43 @@ def natsort(repo):
     return res
 
 
+def orderedges(repo, schema, sites):
+    """R-ORDEREDGES (C15): "every field comes after all fields its location, condition or value mentions".  An expression
+    can mention a sibling in as many ways as Expression has reference-typed alternatives in the IR schema
+    (`field_reference: FieldReference` for `k`, `constant_reference: Reference` for `Foo.k` written inside Foo).  The
+    function that fills the ordering graph (the one that runs the per-Structure ordering action) must have one traversal
+    per such alternative feeding the same `dependencies` table."""
+    res = RuleResult("R-ORDEREDGES")
+    alts = {}
+    for member, info in schema.classes.get("Expression", {}).items():
+        if info.oneof and info.type in ("Reference", "FieldReference"):
+            alts[info.type] = member
+    if len(alts) < 2:
+        raise AnalysisError(f"IR schema: reference-typed alternatives of Expression found: {alts}")
+    m = repo.mod(DC)
+    fn = None
+    for s_ in sites:
+        if s_.module.rel == DC and s_.pattern and s_.pattern[-1] == "Structure" and s_.action is not None \
+                and "ordering" in s_.action.name:
+            fn = s_.func
+    if fn is None:
+        raise AnalysisError("dependency_checker: the traversal that runs the per-Structure ordering action was not found")
+    covered = {}
+    for s_ in sites:
+        if s_.func is fn and s_.pattern and "dependencies" in ast.unparse(s_.call):
+            covered.setdefault(s_.pattern[-1], s_)
+    for t, member in sorted(alts.items()):
+        res.instances += 1
+        if t not in covered:
+            res.add(f"{DC}|{fn.name}|{t}", f"{fn.name} builds the ordering graph from {sorted(k for k in covered if k != 'Structure')} only: "
+                    f"a sibling named through Expression.{member} ({t}; e.g. `0 [+Foo.k] UInt a` before `let k = 4` inside Foo) is "
+                    "no edge, so the field is ordered before the field its location/value mentions", DC, fn.line, fn.name)
+        elif len(res.samples) < 3:
+            res.samples.append(f"{t} ({member}): {covered[t].action.name if covered[t].action else '?'}")
+    res.analysed = [DC]
+    return res
+
+
 def aliasedge(repo):
     """R-ALIASEDGE (C15): every reference to a member of an anonymous `bits` goes through a compiler-made alias
     `let a = <anonymous field>.a`, of which the cycle graph sees only the head.  What the member itself depends on (a
